@@ -660,9 +660,20 @@ func (c *EvalCtx) call(n *Node) Val {
 			}
 		}
 		return out
+	case "has_suffix":
+		t := arg(0).(Text)
+		a, ok1 := t.concrete()
+		b, ok2 := arg(1).(Text).concrete()
+		if !ok1 || !ok2 {
+			specErr(n, "has_suffix(literal, literal)")
+		}
+		return mkBool(strings.HasSuffix(a, b))
 	case "has_prefix":
 		t := arg(0).(Text)
 		p, _ := arg(1).(Text).concrete()
+		if cs, ok := t.concrete(); ok {
+			return mkBool(strings.HasPrefix(cs, p))
+		}
 		if !singleAtom(t) {
 			specErr(n, "has_prefix(atom, literal)")
 		}
@@ -803,6 +814,47 @@ func (c *EvalCtx) call(n *Node) Val {
 			}
 		}
 		return mkInt(cnt)
+	case "call_arg":
+		// call_arg("callee", k): the k-th argument (receiver first) of the last call of
+		// the callee that was answered by its contract on this path
+		nm, _ := arg(0).(Text).concrete()
+		k, _ := c.evalTerm(n.Kids[1]).intVal()
+		tu, ok := c.st.Ghost["callarg:"+nm].(Tuple)
+		if !ok || int(k) >= len(tu) {
+			return Opaque{Tag: "no-call:" + nm}
+		}
+		return tu[k]
+	case "new_schema_type":
+		// setup only: new_schema_type("object") is a *schemas.Type with that type list
+		// ("" for none)
+		tn, _ := arg(0).(Text).concrete()
+		stT := c.ex.w.namedType("pkg/schemas", "Type")
+		fields := map[string]Val{}
+		if tn != "" {
+			ar := c.st.alloc(&Agg{Elems: []Val{lit(tn)}})
+			delete(c.st.Fresh, ar.Cell)
+			fields["Type"] = SliceV{Arr: ar, Len_: 1, Cap: 1}
+		}
+		r := c.st.alloc(mkStruct(stT, fields))
+		delete(c.st.Fresh, r.Cell)
+		c.st.CellTypes[r.Cell] = stT
+		return r
+	case "scope_put":
+		// setup only: scope_put(g, t, "file", "name") marks the reference node t as being
+		// followed right now (an entry of Generator.inScope)
+		g, ok := arg(0).(Ref)
+		if !ok {
+			specErr(n, "scope_put: generator expected")
+		}
+		qd := c.ex.w.namedType("pkg/generator", "qualifiedDefinition")
+		key := mkStruct(qd, map[string]Val{"schema": c.sel(n, g, "schema"), "schemaType": arg(1), "filename": arg(2), "name": arg(3)})
+		m, ok := c.sel(n, g, "inScope").(MapV)
+		if !ok || m.Cell == 0 {
+			specErr(n, "scope_put: generator without inScope map")
+		}
+		ma := c.st.Heap[m.Cell].(*MapAgg)
+		c.st.Heap[m.Cell] = &MapAgg{Keys: append(append([]Val{}, ma.Keys...), key), Vals: append(append([]Val{}, ma.Vals...), zeroVal(types.NewStruct(nil, nil))), Tag: ma.Tag}
+		return tTrue
 	case "merge_options":
 		// the option functions handed to the last mergo.Merge call, sorted by name
 		if t, ok := c.st.Ghost["mergo-opts"].(Text); ok {
